@@ -98,7 +98,6 @@
   __CPROVER_loop_invariant(exitval == 0 ==> (g_wfail == __CPROVER_loop_entry(g_wfail))) \
   __CPROVER_loop_invariant(exitval == 1 ==> g_diag > __CPROVER_loop_entry(g_diag)) \
   __CPROVER_loop_invariant(g_diag >= __CPROVER_loop_entry(g_diag) && g_diag <= __CPROVER_loop_entry(g_diag) + 32ul * (unsigned long)verif_optind) \
-  __CPROVER_loop_invariant(g_lines_listed < (1ul << 30) + (unsigned long)verif_optind * VERIF_FILE_MAX) \
   __CPROVER_decreases(argc - verif_optind)
 #endif
 #endif
